@@ -74,20 +74,24 @@ def do_case(ctx, inp):
 def run(ctx):
     n_models = (150 if ctx.quick else 800) * (3 if ctx.search else 1)
     for _ in range(n_models):
-        a, o, t = gen_valid(ctx.rng, ctx.quick, prefix_p=0.2)
+        a, o, t = gen_valid(ctx.rng, ctx.quick, prefix_p=0.2, empty_p=0.04)
+        if ctx.rng.random() < 0.12:
+            a, o, t = gen_valid_signed_sum(ctx.rng)     # explicit signs against thresholds of either sign, leaves around zero
         for _ in range(3):
             A = gen_interp(ctx.rng, t, total=False, in_bounds=ctx.rng.random() < 0.7)
             do_case(ctx, {"ast": a, "A": {k: list(v) for k, v in A.items()}})
         if ctx.rng.random() < 0.3:
             # a leaf that is DECLARED constant, assumed to another value (an assumption may say anything)
             lv = leaves_of(t)
+            if not lv:
+                continue                    # a model of childless compounds only
             name = ctx.rng.choice(sorted(lv))
             c = ctx.rng.choice([0, 1, 1, 2, -1])
             a2 = with_leaf_bounds(a, name, c, c)
             try:
                 o2 = build(a2)
                 t2 = snap(o2)
-                if is_var(o2) or not well_formed(t2) or o2.errors():
+                if is_var(o2) or not well_formed(t2, allow_empty=True) or o2.errors():
                     continue
             except Exception:
                 continue
